@@ -3,6 +3,7 @@ package props
 import (
 	"bytes"
 	"fmt"
+	"io"
 	"os"
 	"runtime/debug"
 
@@ -26,7 +27,7 @@ func init() {
 			"known fixed-length meta events are generated with their spec length (tempo 3 bytes non-zero, etc.)",
 			"header length is 6 (statement)",
 		},
-		Require: []string{"many_unknown_chunk_files", "reads_with_eof_delivered_with_data", "files", "feat:running_status", "feat:padded_vlq", "feat:f0_without_f7", "feat:f7_packet", "feat:unknown_meta", "feat:long_payload", "feat:alien_before", "feat:alien_between", "feat:alien_after", "feat:smpte", "decoder_crosschecks", "events_compared", "messages_classified", "pipe_reads", "reads_with_log_option"},
+		Require: []string{"many_unknown_chunk_files", "huge_unknown_chunk_files", "reads_with_eof_delivered_with_data", "files", "feat:running_status", "feat:padded_vlq", "feat:f0_without_f7", "feat:f7_packet", "feat:unknown_meta", "feat:long_payload", "feat:alien_before", "feat:alien_between", "feat:alien_after", "feat:smpte", "decoder_crosschecks", "events_compared", "messages_classified", "pipe_reads", "reads_with_log_option"},
 		UsesCur: true,
 		Run:     runC02,
 	})
@@ -324,6 +325,42 @@ func runC02(c *mon.Ctx) {
 		}
 		c.DistinctBytes([]byte(fmt.Sprint("many-unknown", i, n)))
 	})
+	// one unknown chunk of 2 GiB and more (its length field has the top bit set), streamed from a synthetic
+	// source that never holds it in memory: before the first track and between two tracks
+	hugeLens := []uint32{1<<31 - 1, 1 << 31, 1<<31 + 1, 1<<32 - 1}
+	c.Each("huge-unknown-chunk", int64(len(hugeLens)*2), func(i int64, r *mon.Rand) {
+		ln := hugeLens[int(i)%len(hugeLens)]
+		between := int(i)/len(hugeLens) == 1
+		track := func(key byte) []byte {
+			return []byte{'M', 'T', 'r', 'k', 0, 0, 0, 8, 0, 0x90, key, 0x40, 0, 0xFF, 0x2F, 0}
+		}
+		alienHdr := []byte{'j', 'u', 'n', 'k', byte(ln >> 24), byte(ln >> 16), byte(ln >> 8), byte(ln)}
+		var segs []segment
+		segs = append(segs, segment{data: []byte{'M', 'T', 'h', 'd', 0, 0, 0, 6, 0, 1, 0, 2, 0, 96}})
+		if between {
+			segs = append(segs, segment{data: track(1)}, segment{data: alienHdr}, segment{zeros: int64(ln)}, segment{data: track(2)})
+		} else {
+			segs = append(segs, segment{data: alienHdr}, segment{zeros: int64(ln)}, segment{data: track(1)}, segment{data: track(2)})
+		}
+		src := &segmentReader{segs: segs}
+		in := map[string]any{"unknown_chunk_length": ln, "between_the_tracks": between, "source": "synthetic stream (zeros generated on the fly)"}
+		c.CurPayload([]byte(fmt.Sprint(in)))
+		var sm *smf.SMF
+		var err error
+		if c.Guard("panic:ReadFrom", in, func() { sm, err = smf.ReadFrom(src) }) {
+			return
+		}
+		c.Count("huge_unknown_chunk_files", 1)
+		if err != nil {
+			c.Violation("read-error", fmt.Sprintf("ReadFrom rejects a spec-valid file with one unknown chunk of %d bytes (between the tracks: %v): %v", ln, between, err), in, "value", err.Error())
+			return
+		}
+		want := &ref.File{Format: 1, Division: 96, Tracks: [][]ref.Ev{{{Delta: 0, Msg: []byte{0x90, 1, 0x40}}, {Delta: 0, Msg: ref.EOT}}, {{Delta: 0, Msg: []byte{0x90, 2, 0x40}}, {Delta: 0, Msg: ref.EOT}}}}
+		if diff := ref.EqualFiles(want, fromLib(sm)); diff != "" {
+			c.Violation("content", fmt.Sprintf("file with one unknown chunk of %d bytes: %s", ln, diff), in, nil, nil)
+		}
+		c.DistinctBytes([]byte(fmt.Sprint("huge-unknown", i)))
+	})
 	if c.Thorough() {
 		c.Each("huge", 3, func(i int64, r *mon.Rand) {
 			switch i {
@@ -345,4 +382,40 @@ func runC02(c *mon.Ctx) {
 			}
 		})
 	}
+}
+
+// segmentReader streams a sequence of byte segments and runs of zeros that are generated on the fly.
+type segment struct {
+	data  []byte
+	zeros int64
+}
+
+type segmentReader struct {
+	segs []segment
+	off  int64 // offset inside the current segment
+}
+
+func (r *segmentReader) Read(p []byte) (int, error) {
+	for len(r.segs) > 0 {
+		s := &r.segs[0]
+		if s.data != nil {
+			if r.off < int64(len(s.data)) {
+				n := copy(p, s.data[r.off:])
+				r.off += int64(n)
+				return n, nil
+			}
+		} else if r.off < s.zeros {
+			n := int64(len(p))
+			if n > s.zeros-r.off {
+				n = s.zeros - r.off
+			}
+			for k := int64(0); k < n; k++ {
+				p[k] = 0
+			}
+			r.off += n
+			return int(n), nil
+		}
+		r.segs, r.off = r.segs[1:], 0
+	}
+	return 0, io.EOF
 }
